@@ -59,7 +59,15 @@ func loadKnown(verif string) *KnownFile {
 	return kf
 }
 
+// oblBelongs: a property's check discharges EVERY obligation of every function
+// that lists the property (whatever the label's prefix): a caller's proof for
+// this property may rest on any clause of a callee's contract, so all of them
+// have to hold on the tree under check.
 func oblBelongs(ob *Obligation, prop string) bool {
+	return true
+}
+
+func oblBelongsByLabel(ob *Obligation, prop string) bool {
 	if ob.Label == "" {
 		return true
 	}
@@ -89,6 +97,7 @@ type CheckResult struct {
 	ToolErrors []string
 	Violations []*OblSummary
 	Known      []*OblSummary
+	KnownOther []*OblSummary
 	KnownInfo  map[string]KnownFinding
 	Wall       float64
 	ContractSrc map[string]string
@@ -178,9 +187,7 @@ func runCheck(w *World, prop string, timeoutS int, confirm bool, known *KnownFil
 	}
 	kn := map[string]KnownFinding{}
 	for _, k := range known.Findings {
-		if k.Property == prop {
-			kn[k.Obligation] = k
-		}
+		kn[k.Obligation] = k
 	}
 	// obligations recorded as known findings are expected to fail: a short
 	// budget is enough to confirm that they are still not discharged
@@ -198,7 +205,11 @@ func runCheck(w *World, prop string, timeoutS int, confirm bool, known *KnownFil
 			continue
 		}
 		if k, ok := kn[s.Name]; ok {
-			res.Known = append(res.Known, s)
+			if k.Property == prop {
+				res.Known = append(res.Known, s)
+			} else {
+				res.KnownOther = append(res.KnownOther, s) // recorded under another property: reported by that property's check
+			}
 			res.KnownInfo[s.Name] = k
 			continue
 		}
@@ -432,8 +443,8 @@ func writeEvidence(verif, prop, tier string, seed int, res *CheckResult, muts []
 		st := "discharged"
 		if len(s.Failed) > 0 {
 			st = "failed:" + s.Failed[0].Result.Status
-			if _, ok := res.KnownInfo[s.Name]; ok {
-				st = "known-finding"
+			if k, ok := res.KnownInfo[s.Name]; ok {
+				st = "known-finding (" + k.Property + ")"
 			}
 		} else {
 			disc++
@@ -502,14 +513,18 @@ func writeEvidence(verif, prop, tier string, seed int, res *CheckResult, muts []
 	for _, s := range res.Known {
 		knownEv = append(knownEv, s.Name)
 	}
+	var knownOtherEv []string
+	for _, s := range res.KnownOther {
+		knownOtherEv = append(knownOtherEv, s.Name+" (recorded under "+res.KnownInfo[s.Name].Property+")")
+	}
 	ev := map[string]any{
 		"property_id": prop, "tier": tier, "seed": seed, "level": "proof",
 		"coverage": map[string]any{
-			"obligations": len(res.Sums) - len(res.Known), "discharged": disc, "obligation_instances": len(res.Obls),
+			"obligations": len(res.Sums) - len(res.Known) - len(res.KnownOther), "discharged": disc, "obligation_instances": len(res.Obls),
 			"checker_cmd": "bin/hv check " + prop + " --tier " + tier,
 			"trusted_base": tb, "functions_under_contract": funcs, "obligation_list": obls, "samples": samples,
 			"solver_time_s": float64(int(solverTime*100)) / 100, "reach_checks": nreach, "lemmas": res.Lemmas,
-			"known_findings_reported": knownEv, "known_findings_replayed": kfReplays, "mutants": mutEv, "contract_files": res.ContractSrc,
+			"known_findings_reported": knownEv, "known_findings_of_other_properties_on_shared_functions": knownOtherEv, "known_findings_replayed": kfReplays, "mutants": mutEv, "contract_files": res.ContractSrc,
 			"explanation": "Each obligation is a verification condition generated by symbolic execution of the go/ssa form of the real function against its //@ contract; an obligation name counts as discharged when every path instance is unsat. Known findings are obligations that fail on the pinned tree for a recorded genuine defect; they are not counted as discharged.",
 		},
 		"assumptions": sortedKeys(assumptions), "wall_s": float64(int(wall*10)) / 10, "violations": nviol,
